@@ -109,8 +109,10 @@ def classify(c, real, lean):
             why = f"output-width: the Lean checker gives {w} words ({li.split(' ')[2:3]}), the real runtime reports {nout} channels"
     cell = ("L+" if L else "L-") + ("R+" if R else "R-") + ("" if why is None else "!")
     if c["kind"] == "welltyped":
-        if not L or not la.startswith("accept") or li.split(" ")[1:3] != la.split(" ")[1:3]:
+        if not L or li != la:
             return cell, "violation", f"generated well-typed program: Lean checker says infer=`{li}` annotated=`{la}`"
+        if li.split(" ")[-1] != "su":
+            return cell, "violation", "generated well-typed program: site identifiers are not pairwise distinct within a body (generator guarantee `SitesUnique`)"
         if int(li.split(" ")[1]) != c["nout"]:
             return cell, "violation", f"generated well-typed program: Lean output width {li.split(' ')[1]} but the generator declares {c['nout']}"
         if not R:
@@ -183,6 +185,7 @@ def main(ctx, args):
     lean = lean_verdicts(cases)
     failures, stats, nontriv, samples = [], collections.Counter(), set(), []
     matrix, outside, classed = collections.Counter(), collections.Counter(), collections.defaultdict(list)
+    infer_vs_ann = collections.Counter()
     for c in cases:
         vm, wasm, _ = res[c["id"]]
         stats["evaluations"] += 1
@@ -199,6 +202,8 @@ def main(ctx, args):
         cell, verdict, detail = classify(c, (vm, wasm), lean[c["id"]])
         matrix[c["kind"].split(":")[0] + " " + cell] += 1
         stats["lean_" + lean[c["id"]][0].split(" ")[0]] += 1
+        if c["kind"] != "welltyped":
+            infer_vs_ann["infer:" + lean[c["id"]][0].split(" ")[0] + " annotated:" + lean[c["id"]][1].split(" ")[0]] += 1
         if verdict == "agree":
             if vm.startswith("ok") and pc.nontrivial(vm):
                 nontriv.add(hash(c["src"]))
@@ -263,6 +268,7 @@ def main(ctx, args):
         "verdict_matrix": dict(sorted(matrix.items())),
         "verdict_matrix_legend": "L+/L- Lean checker accepts/rejects, R+/R- real checker accepts/rejects (no diagnostic), ! = accepted by the real checker but not run safely (crash, one back end only, wrong width)",
         "real_accepts_outside_core_model": dict(sorted(outside.items())),
+        "mutants_lean_infer_vs_generator_annotations": dict(sorted(infer_vs_ann.items())),
         "outside_model_reasons": OUTSIDE_MODEL,
         "always_rejected_kinds": sorted(ALWAYS_REJECTED),
         "known_class_instances": {k: len(v) for k, v in sorted(classed.items())},
